@@ -28,7 +28,8 @@ deriving Inhabited
 /-- first error wins? no: the visitor overwrites; we record the class of the *last* error and whether the
     final error still wraps the injected sentinel -/
 structure Err where
-  sentinel : Bool
+  sentinel : Bool          -- the error wraps the sentinel returned by a user function
+  nosuch : Bool := false   -- the error wraps exp.ErrNoSuchValue
 deriving Repr
 
 inductive Out
@@ -127,8 +128,8 @@ structure St where
 abbrev M := StateT St (Except Unit)      -- Except Unit = a panic that unwinds to Evaluate's recover
 
 /-- SetError / SetErrorOnToken: the first recorded error is kept (later ones are dropped) -/
-def setErr (sentinel : Bool := false) : M Val := do
-  modify fun s => if s.err.isSome then s else { s with err := some ⟨sentinel⟩ }
+def setErr (sentinel : Bool := false) (nosuch : Bool := false) : M Val := do
+  modify fun s => if s.err.isSome then s else { s with err := some ⟨sentinel, nosuch⟩ }
   return .nil
 def goPanic : M Val := throw ()
 /-- the value is outside the model: the whole run is reported as `unsupported`, never compared -/
@@ -500,7 +501,8 @@ partial def eval (fns : List (String × FnSpec)) (data : List Val) : E → M Val
     if ← hasErr then return .nil
     match scopeGet data n with
     | .found v => return v
-    | _ => setErr
+    | .absent => setErr false true
+    | .failed => setErr
   | .paren e => do if ← hasErr then return .nil else eval fns data e
   | .un op e => do
     if ← hasErr then return .nil
@@ -564,7 +566,8 @@ partial def eval (fns : List (String × FnSpec)) (data : List Val) : E → M Val
     let pv ← eval fns data e
     match getValue n pv with
     | .found v => return v
-    | _ => setErr
+    | .absent => setErr false true
+    | .failed => setErr
   | .index e i => do
     if ← hasErr then return .nil
     let pv ← eval fns data e
@@ -578,7 +581,8 @@ partial def eval (fns : List (String × FnSpec)) (data : List Val) : E → M Val
     | none => setErr
     | some n => match getValue n pv with
       | .found v => return v
-      | _ => setErr
+      | .absent => setErr false true
+      | .failed => setErr
   | .slice e lo hi cap => do
     if ← hasErr then return .nil
     let pv ← eval fns data e
